@@ -169,6 +169,9 @@ def routes_batch(seed, tier, l2, driver, extra_profiles=None, tag="routes", size
     sizes = sizes or TIER_SIZES[tier]
     profiles = extra_profiles or ("opt", "loops", "wide", "tiny", "grid", "grid300", "rewrites", "mixedwait", "asymfp", "shared", "pairfam", "pairfam")
     gen_src = hashlib.sha256(open(os.path.join(HERE, "gen.py"), "rb").read()).hexdigest()[:12]     # generator changes re-run the batch
+    cdir = os.path.join(VERIF, "corpus", "l2")
+    if os.path.isdir(cdir):                                                                          # ... and so do corpus changes
+        gen_src += hashlib.sha256(b"".join(open(os.path.join(cdir, f), "rb").read() for f in sorted(os.listdir(cdir)))).hexdigest()[:8]
     key = hashlib.sha256(("%s|%s|%s|%d|%s|%s|%s|%s" % (tag, l2, driver, seed, tier, json.dumps(sizes, sort_keys=True), profiles, gen_src)).encode()).hexdigest()[:24]
     mp = memo_path(key)
     with build.Lock("memo-" + key):
